@@ -933,10 +933,11 @@ func (pc *PartitionContext) allocate(result *objects.AllocationResult) *objects.
 					zap.String("appID", appID),
 					zap.String("allocationKey", allocKey),
 					zap.Error(err))
-				// the ask is gone: the node removal found the new allocation on the node and released it like all
-				// other allocations on the node. That removal has discounted the allocation, count it.
-				pc.unwindRemovedAppAllocation(result)
 			}
+			// The node removal finds the new allocation on the node and releases it like all other allocations on the
+			// node, that removal has, or will, discount the allocation: count it. An allocation the node removal does
+			// not find stays with the application and is discounted when it is released.
+			pc.unwindRemovedAppAllocation(result)
 		}
 		return nil
 	}
